@@ -86,6 +86,10 @@ class Tokenizer:
         line = ""
         while True:
             tok = next(self._tokengen)
+            if tok.type == Token.ENDMARKER:  # unclosed macro call: let the parser report it
+                self._stack.append(tok)
+                self._call_macro = False
+                break
             if tok.type == Token.OP and tok.string[-1] in "([{":  # push paren level
                 paren_level.append(tok.string[-1])
             if paren_level:
@@ -95,7 +99,7 @@ class Tokenizer:
                     else:
                         raise SyntaxError(f"Unmatched closing paren {tok.string} at {tok.start}")
             else:
-                if tok.is_exact_type(")") or tok.type == Token.ENDMARKER:
+                if tok.is_exact_type(")"):
                     self._stack.append(tok)
                     self._call_macro = False
                     break
@@ -200,7 +204,7 @@ class Tokenizer:
                         if seen == n:
                             break
 
-        return [lines[n] for n in line_numbers]
+        return [lines.get(n, "") for n in line_numbers]  # a line past the end of input is empty
 
     def mark(self) -> Mark:
         return self._index
